@@ -235,7 +235,10 @@ def apply_op(store, tok):
             else:
                 G.add_edge_type(gr, NAMES[int(f[2])])
         elif k == "ret":
-            G.remove_edge_type(NAMES[int(f[2])])
+            if list(G.edge_types) == [NAMES[int(f[2])]]:
+                G.clear_edge_types()        # removing the last edge type = removing all of them
+            else:
+                G.remove_edge_type(NAMES[int(f[2])])
         elif k == "ga":
             G.graph.update(p_attr(f[2]))
         elif k == "cp":
